@@ -87,6 +87,18 @@ Section Eqs.
        end).
     rewrite G, H1, H2. reflexivity.
   Qed.
+  Lemma eval_allenum n s i v l body its : rbind (eval P E n s l) items = Ok its ->
+    eval P E (S n) s (XAllEnum i v l body) =
+    rbind (all_each (fun '(k, it) => rbind (eval P E n (set_loc v it (set_loc i (PI (Z.of_nat k)) s)) body) truth)
+             (enum_from 0 its)) (fun r => Ok (PB r)).
+  Proof.
+    intro H.
+    change (eval P E (S n) s (XAllEnum i v l body)) with
+      (rbind (eval P E n s l) (fun vl => rbind (items vl) (fun its =>
+         rbind (all_each (fun '(k, it) => rbind (eval P E n (set_loc v it (set_loc i (PI (Z.of_nat k)) s)) body) truth)
+                  (enum_from 0 its)) (fun r => Ok (PB r))))).
+    destruct (eval P E n s l) as [vl|]; simpl in H |- *; [|discriminate]. rewrite H. reflexivity.
+  Qed.
   Lemma exec_call n s m args mt vs lc :
     lookup m P = Some mt -> eval_args (eval P E n s) args = Ok vs ->
     bind_params (m_params mt) vs (m_locals mt) = Some lc ->
@@ -186,7 +198,7 @@ Ltac start :=
   match goal with |- context [lookup ?m ?P] => let v := eval lazy in (lookup m P) in change (lookup m P) with v end;
   cbv beta iota;
   match goal with |- context [bind_params ?a ?b ?c] =>
-    let v := eval lazy in (bind_params a b c) in change (bind_params a b c) with v end;
+    let v := eval lazy -[Z.of_nat Z.of_N] in (bind_params a b c) in change (bind_params a b c) with v end;
   cbv beta iota; cbn [m_body].
 
 (* ------------------------------------------------------------------ data facts *)
@@ -442,4 +454,242 @@ Proof.
         as (r2 & Hloop); [| exact H1 | exact H2 |] end.
     + intros r p r0. cbv beta iota. sym'. all: fin_pt.
     + rewrite Hloop. cbv beta iota. sym'. reflexivity.
+Qed.
+
+(* add_policy as a callee: any fuel >= 30 *)
+Lemma add_policy_block_noprio sp pi tk m l r : prio_of sp pi = None ->
+  exists s', block policy_gen (mkE sp pi tk) (30 + m)
+               {| pol := l; loc := [(3, PL r); (6, PUnbound); (4, PUnbound); (7, PUnbound); (8, PUnbound)] |}
+               (m_body add_policy_gen) = ORet (PB (snd (add_policy None l r))) s' /\
+             pol s' = fst (add_policy None l r).
+Proof.
+  unfold prio_of. intro Hp. cbn [Nat.add m_body add_policy_gen]. sym.
+  all: try (exfalso; cbn [andb] in Hp;
+            repeat match goal with H : (0 <=? _)%Z = _ |- _ => rewrite H in Hp end; discriminate Hp).
+  all: unfold add_policy, has_policy; use_hyps; cbn [fst snd]; eexists; split; reflexivity.
+Qed.
+
+(* "for x in xs: self.add_policy(sec, ptype, x)" *)
+Lemma add_loop (F : pv -> pst -> out) (mk : list rule -> pv -> pst) :
+  (forall r p r0, F (PL r) (mk p r0) = ONext (mk (fst (add_policy None p r)) (PL r))) ->
+  forall rs p r0, exists r', for_each F (map PL rs) (mk p r0) = ONext (mk (add_all None p rs) r').
+Proof.
+  intro HF. induction rs as [|r t IH]; intros p r0; simpl.
+  - exists r0. reflexivity.
+  - rewrite HF. apply IH.
+Qed.
+
+Lemma batch_addable_pre l : forall rs seen pre, (forall x, mem rule_eqb x seen = mem rule_eqb x pre) ->
+  batch_addable l seen rs = forallb (fun r => negb (has_policy l r)) rs && nodup_pre pre rs.
+Proof.
+  induction rs as [|r t IH]; intros seen pre H; simpl; [reflexivity|].
+  rewrite (IH (r :: seen) (pre ++ [r])).
+  - rewrite H. destruct (has_policy l r), (mem rule_eqb r pre); simpl; try reflexivity. rewrite andb_false_r. reflexivity.
+  - intro x. simpl. rewrite mem_app, H. simpl. rewrite orb_false_r. apply orb_comm.
+Qed.
+
+Lemma tie_add_policies_noprio sp pi tk l rs : prio_of sp pi = None ->
+  run policy_gen (mkE sp pi tk) FUEL m_add_policies l [PLL rs] =
+  (Ok (PB (snd (add_policies None l rs))), fst (add_policies None l rs)).
+Proof.
+  intro Hp. start. step. step.
+  match goal with |- context [for_each ?F (enum_from 0 (map PL rs)) _] =>
+    destruct (check_loop F (fun i r => {| pol := l; loc := [(9, PLL rs); (4, i); (3, r)] |})
+                (fun r => has_policy l r) rs) with (suf := rs) (pre := @nil rule) (i0 := PUnbound) (r0 := PUnbound)
+      as (i' & r' & Hloop) end.
+  - intros k r i0 r0. cbv beta iota. sym'. all: fin_pt.
+  - reflexivity.
+  - cbn [length] in Hloop. rewrite Hloop. clear Hloop.
+    unfold add_policies. rewrite (batch_addable_pre l rs [] []) by reflexivity.
+    destruct (forallb (fun r => negb (has_policy l r)) rs && nodup_pre [] rs) eqn:Hok; cbv beta iota; [|reflexivity].
+    step. step.
+    match goal with |- context [for_each ?F (map PL rs) _] =>
+      destruct (add_loop F (fun p r => {| pol := p; loc := [(9, PLL rs); (4, i'); (3, r)] |})) with (rs := rs) (p := l) (r0 := r')
+        as (r2 & Hloop) end.
+    + intros r p r0. cbv beta iota. step. step.
+      cbv [set_loc set_pol upd key_eqb Pos.eqb]; cbn [pol loc].
+      destruct (add_policy_block_noprio sp pi tk 25 p r Hp) as (s' & Hb & Hpol).
+      change (30 + 25)%nat with 55%nat in Hb.
+      let b := eval lazy in (m_body add_policy_gen) in change (m_body add_policy_gen) with b in Hb.
+      rewrite Hb. cbv beta iota. rewrite Hpol. step. reflexivity.
+    + rewrite Hloop. cbv beta iota. sym'. reflexivity.
+Qed.
+
+(* ------------------------------------------------------------------ filtered forms *)
+(* all(value == "" or rule[field_index + i] == value for i, value in enumerate(field_values)) *)
+Lemma filter_all (G : nat * pv -> result bool) (r : rule) (fi : nat) :
+  (forall k v, G (k, PA v) =
+     if v =? 0 then Ok true
+     else match nth_error r (fi + k) with Some x => Ok (x =? v) | None => Err EIndex end) ->
+  forall vs k, all_each G (enum_from k (map PA vs)) =
+               match filter_match r (fi + k) vs with Some b => Ok b | None => Err EIndex end.
+Proof.
+  intro HG. induction vs as [|v vs IH]; intro k; simpl; [reflexivity|].
+  rewrite HG. unfold field. destruct (v =? 0).
+  - rewrite IH. replace (fi + S k)%nat with (S (fi + k)) by lia. reflexivity.
+  - destruct (nth_error r (fi + k)) as [x|]; [|reflexivity].
+    destruct (x =? v); [|reflexivity].
+    rewrite IH. replace (fi + S k)%nat with (S (fi + k)) by lia. reflexivity.
+Qed.
+
+Definition enc (acc : list rule) : pv := match acc with [] => PNil | _ => PLL acc end.
+
+Lemma enc_append acc r : py_append (enc acc) (PL r) = Ok (enc (acc ++ [r])).
+Proof. destruct acc; simpl; [reflexivity|]. reflexivity. Qed.
+
+Lemma enc_items acc : items (enc acc) = Ok (map PL acc).
+Proof. destruct acc; reflexivity. Qed.
+
+Definition is_nil {A} (l : list A) : bool := match l with [] => true | _ => false end.
+
+(* "for rule in policy: if <filter>: [res = True;] acc.append(rule)" *)
+Lemma filter_loop (F : pv -> pst -> out) (mk : list rule -> bool -> pv -> pst) (fi : nat) (vs : list name) :
+  (forall r acc res r0, F (PL r) (mk acc res r0) =
+     match filter_match r fi vs with
+     | Some true => ONext (mk (acc ++ [r]) true (PL r))
+     | Some false => ONext (mk acc res (PL r))
+     | None => OErr EIndex (mk acc res (PL r))
+     end) ->
+  forall l acc res r0,
+  match split_filtered l fi vs with
+  | Ok (kept, gone) => exists r', for_each F (map PL l) (mk acc res r0) = ONext (mk (acc ++ gone) (res || negb (is_nil gone)) r')
+  | Err _ => exists acc' res' r', for_each F (map PL l) (mk acc res r0) = OErr EIndex (mk acc' res' r')
+  end.
+Proof.
+  intro HF. induction l as [|x l IH]; intros acc res r0.
+  - simpl. exists r0. rewrite app_nil_r, orb_false_r. reflexivity.
+  - cbn [split_filtered map for_each]. rewrite HF.
+    destruct (filter_match x fi vs) as [[|]|] eqn:Ex; cbv beta iota.
+    + specialize (IH (acc ++ [x]) true (PL x)).
+      destruct (split_filtered l fi vs) as [[kept gone]|c]; cbv beta iota.
+      * destruct IH as (r' & IH). exists r'. eapply eq_trans; [exact IH|]. f_equal.
+        f_equal; [rewrite <- app_assoc; reflexivity | simpl; rewrite orb_true_r; reflexivity].
+      * exact IH.
+    + specialize (IH acc res (PL x)).
+      destruct (split_filtered l fi vs) as [[kept gone]|c]; cbv beta iota; exact IH.
+    + eexists _, _, _. reflexivity.
+Qed.
+
+Lemma split_filtered_err_code : forall l i vs c, split_filtered l i vs = Err c -> c = EIndex.
+Proof.
+  induction l as [|x l IH]; intros i vs c H; simpl in H; [discriminate|].
+  destruct (filter_match x i vs) as [b|]; [|inversion H; reflexivity].
+  destruct (split_filtered l i vs) as [[k g]|c'] eqn:E; [destruct b; discriminate|].
+  inversion H; subst. eapply IH. exact E.
+Qed.
+
+(* removing the selected rules one by one leaves exactly the others *)
+Fixpoint remove_seq (gs : list rule) (l : list rule) : option (list rule) :=
+  match gs with
+  | [] => Some l
+  | g :: t => match remove_first rule_eqb g l with Some l' => remove_seq t l' | None => None end
+  end.
+
+Lemma remove_seq_skip (x : rule) : forall gs l, (forall g, In g gs -> g <> x) ->
+  remove_seq gs (x :: l) = match remove_seq gs l with Some l' => Some (x :: l') | None => None end.
+Proof.
+  induction gs as [|g t IH]; intros l H; simpl; [reflexivity|].
+  assert (Hg : rule_eqb g x = false) by (apply rule_eqb_neq; apply H; left; reflexivity).
+  rewrite Hg. destruct (remove_first rule_eqb g l) as [l'|]; [|reflexivity].
+  apply IH. intros g' Hg'. apply H. right. exact Hg'.
+Qed.
+
+Lemma remove_seq_filter (m : rule -> bool) : forall l,
+  remove_seq (filter m l) l = Some (filter (fun r => negb (m r)) l).
+Proof.
+  induction l as [|x l IH]; simpl; [reflexivity|].
+  destruct (m x) eqn:Ex; simpl.
+  - rewrite rule_eqb_refl. exact IH.
+  - rewrite remove_seq_skip.
+    + rewrite IH. reflexivity.
+    + intros g Hg ->. apply filter_In in Hg. destruct Hg as [_ Hg]. congruence.
+Qed.
+
+Lemma remove_seq_loop (F : pv -> pst -> out) (mk : list rule -> pv -> pst) :
+  (forall r p r0, F (PL r) (mk p r0) =
+     match remove_first rule_eqb r p with Some p' => ONext (mk p' (PL r)) | None => OErr EValue (mk p (PL r)) end) ->
+  forall gs p p' r0, remove_seq gs p = Some p' ->
+  exists r', for_each F (map PL gs) (mk p r0) = ONext (mk p' r').
+Proof.
+  intro HF. induction gs as [|g t IH]; intros p p' r0 H; simpl in *.
+  - inversion H. exists r0. reflexivity.
+  - rewrite HF. destruct (remove_first rule_eqb g p) as [p1|]; [|discriminate]. apply IH. exact H.
+Qed.
+
+Lemma Z_add_of_nat a b : (Z.of_nat a + Z.of_nat b)%Z = Z.of_nat (a + b).
+Proof. lia. Qed.
+
+Definition res_rf (r : result (store * bool)) (l : store) : result pv * list rule :=
+  match r with Ok (l', b) => (Ok (PB b), l') | Err c => (Err c, l) end.
+
+(* evaluates the condition "all(value == "" or rule[field_index + i] == value for ...)" of the current goal to
+   filter_match r fi vs *)
+Ltac filter_cond r fi vs :=
+  match goal with |- context [eval ?P ?E (S ?n) ?s (XAllEnum ?i ?v ?l0 ?body)] =>
+    rewrite (eval_allenum P E n s i v l0 body (map PA vs) eq_refl) end;
+  match goal with |- context [all_each ?G (enum_from 0 (map PA vs))] =>
+    rewrite (filter_all G r fi);
+    [ rewrite Nat.add_0_r
+    | let k := fresh "k" in let v := fresh "v" in
+      intros k v; cbv beta iota;
+      match goal with |- ?lhs = _ => let t := lz lhs in change lhs with t end;
+      rewrite Z_add_of_nat, norm_idx_of_nat; destruct (v =? 0); [reflexivity|];
+      let Hlt := fresh "Hlt" in let Ea := fresh "Ea" in
+      destruct (Nat.ltb_spec (fi + k) (length r)) as [Hlt|Hlt];
+      [ destruct (nth_error r (fi + k)) eqn:Ea; [reflexivity | apply nth_error_None in Ea; lia]
+      | rewrite (proj2 (nth_error_None r (fi + k)) Hlt); reflexivity ] ]
+  end.
+
+(* rewrite with a loop equation up to conversion (type aliases rule / list name differ syntactically) *)
+Ltac rew_loop H :=
+  match type of H with ?lhs = _ =>
+    match goal with |- context [for_each ?F ?its ?s] => change (for_each F its s) with lhs end
+  end; rewrite H.
+
+Ltac fin_acc :=
+  cbv [set_loc set_pol upd key_eqb Pos.eqb]; cbn [pol loc];
+  try reflexivity;
+  repeat match goal with acc : list rule |- _ => destruct acc end; reflexivity.
+
+Lemma tie_remove_filtered_policy sp pi tk l fi vs :
+  run policy_gen (mkE sp pi tk) FUEL m_remove_filtered_policy l [PI (Z.of_nat fi); PL vs] =
+  res_rf (remove_filtered l fi vs) l.
+Proof.
+  start. sym'.
+  match goal with |- context [for_each ?F (map PL l) _] =>
+    pose proof (filter_loop F
+      (fun acc res r => {| pol := l; loc := [(1, PI (Z.of_nat fi)); (2, PL vs); (8, enc acc); (18, PB res); (3, r); (4, PUnbound); (5, PUnbound)] |})
+      fi vs) as HL end.
+  cbv beta in HL.
+  assert (HP : forall (r : list name) (acc : list rule) (res : bool) (r0 : pv),
+     block policy_gen (mkE sp pi tk) 54
+       (set_loc 3 (PL r) {| pol := l; loc := [(1, PI (Z.of_nat fi)); (2, PL vs); (8, enc acc); (18, PB res); (3, r0); (4, PUnbound); (5, PUnbound)] |})
+       [SIf (XAllEnum 4 5 (XVar 2) (XOr (XCmp CEq (XVar 5) (XS 0)) (XCmp CEq (XIdx (XVar 3) (XAdd (XVar 1) (XVar 4))) (XVar 5))))
+          [SAssign 18 (XB true); SLocAppend 8 (XVar 3)] []] =
+     match filter_match r fi vs with
+     | Some true => ONext {| pol := l; loc := [(1, PI (Z.of_nat fi)); (2, PL vs); (8, enc (acc ++ [r])); (18, PB true); (3, PL r); (4, PUnbound); (5, PUnbound)] |}
+     | Some false => ONext {| pol := l; loc := [(1, PI (Z.of_nat fi)); (2, PL vs); (8, enc acc); (18, PB res); (3, PL r); (4, PUnbound); (5, PUnbound)] |}
+     | None => OErr EIndex {| pol := l; loc := [(1, PI (Z.of_nat fi)); (2, PL vs); (8, enc acc); (18, PB res); (3, PL r); (4, PUnbound); (5, PUnbound)] |}
+     end).
+  { intros r acc res r0.
+    rewrite (block_step _ _ _ _ _ _ _ eq_refl).
+    rewrite (exec_if _ _ _ _ _ _ _ _ eq_refl).
+    filter_cond r fi vs.
+    destruct (filter_match r fi vs) as [[|]|]; cbn [rbind truth]; cbv beta iota; sym'; fin_acc. }
+  specialize (HL HP l [] false PUnbound). clear HP.
+  unfold remove_filtered.
+  destruct (split_filtered l fi vs) as [[kept gone]|c] eqn:Es; cbn [res_rf].
+  - destruct HL as (r' & HL). rew_loop HL. clear HL. cbv beta iota. cbn [app orb].
+    destruct (split_filtered_spec _ _ _ _ _ Es) as [Hg Hk].
+    pose proof (remove_seq_filter (fm_true fi vs) l) as Hseq. rewrite <- Hg, <- Hk in Hseq.
+    clear Hg Hk Es. destruct gone as [|g0 gs0].
+    + simpl in Hseq. inversion Hseq; subst kept. cbn [enc is_nil negb]. sym'. reflexivity.
+    + cbn [enc is_nil negb]. step. step.
+      match goal with |- context [for_each ?F (map PL (g0 :: gs0)) _] =>
+        destruct (remove_seq_loop F
+          (fun p r => {| pol := p; loc := [(1, PI (Z.of_nat fi)); (2, PL vs); (8, PLL (g0 :: gs0)); (18, PB true); (3, r); (4, PUnbound); (5, PUnbound)] |}))
+          with (gs := g0 :: gs0) (p := l) (p' := kept) (r0 := r') as (r2 & Hl2); [| exact Hseq |] end.
+      * intros r p r0. cbv beta iota. sym'; fin_acc.
+      * rew_loop Hl2. cbv beta iota. sym'. reflexivity.
+  - destruct HL as (acc' & res' & r' & HL). rew_loop HL. rewrite (split_filtered_err_code _ _ _ _ Es). reflexivity.
 Qed.
